@@ -25,7 +25,7 @@ def main():
         subprocess.run("git checkout -q --detach %s" % PINNED, shell=True, cwd=WT)
     if not os.path.isdir(WT):
         subprocess.run(["git", "-C", "/repo", "worktree", "add", "--detach", WT, PINNED], check=True, stdout=subprocess.DEVNULL, stderr=subprocess.DEVNULL)
-    items = sorted(glob.glob(INBOX + "/C*/[0-9]"))
+    items = sorted(glob.glob(INBOX + "/C*/[0-9]*"))
     for d in items:
         pid = d.split("/")[-2]; k = d.split("/")[-1]
         tag = "%s/%s" % (pid, k)
@@ -36,7 +36,7 @@ def main():
         if HEADMODE and not os.path.exists(os.path.join(d, PATCH)):
             # round-2 seeds were written against the repaired tree: their patch.diff is the head patch
             try:
-                if json.load(open(os.path.join(d, "meta.json"))).get("round") == 2:
+                if json.load(open(os.path.join(d, "meta.json"))).get("round") in (2, 3):
                     patch_name = "patch.diff"
                 else:
                     continue
@@ -57,6 +57,7 @@ def main():
                 res["error"] = "cannot locate demo placement"
                 json.dump(res, open(out, "w"), indent=1); continue
             name = os.path.basename(demo_path)[:-3]
+            extra = demo.get("extra_args", "")
             reset()
             rc, o = sh("git apply %s" % os.path.join(d, patch_name))
             res["apply"] = rc == 0
@@ -72,10 +73,10 @@ def main():
             os.makedirs(os.path.join(WT, os.path.dirname(demo_path)), exist_ok=True)
             shutil.copy(os.path.join(d, "demo.rs"), os.path.join(WT, demo_path))
             cmd = "cargo test -p %s --test %s --offline -j %s 2>&1 | tail -15" % (crate, name, J)
-            rc, o = sh("cargo test -p %s --test %s --offline -j %s > /tmp/confirm/demo.out 2>&1; echo RC=$?; tail -12 /tmp/confirm/demo.out" % (crate, name, J))
+            rc, o = sh("cargo test -p %s --test %s --offline -j %s %s > /tmp/confirm/demo.out 2>&1; echo RC=$?; tail -12 /tmp/confirm/demo.out" % (crate, name, J, extra))
             res["demo_with_patch_rc"] = int(re.search(r"RC=(\d+)", o).group(1)); res["demo_with_patch_tail"] = o[-600:]
             rc, o2 = sh("git apply -R %s" % os.path.join(d, patch_name))
-            rc, o = sh("cargo test -p %s --test %s --offline -j %s > /tmp/confirm/demo.out 2>&1; echo RC=$?; tail -5 /tmp/confirm/demo.out" % (crate, name, J))
+            rc, o = sh("cargo test -p %s --test %s --offline -j %s %s > /tmp/confirm/demo.out 2>&1; echo RC=$?; tail -5 /tmp/confirm/demo.out" % (crate, name, J, extra))
             res["demo_without_patch_rc"] = int(re.search(r"RC=(\d+)", o).group(1))
             res["confirmed"] = bool(res["build_ok"] and res["suite_failed"] == 0 and res["suite_passed"] > 2000
                                     and res["demo_with_patch_rc"] != 0 and res["demo_without_patch_rc"] == 0)
